@@ -10,8 +10,9 @@ keep their link bit and target -/
 structure Ext (fs fs' : FS) : Prop where
   dir : ∀ i : Nat, (fs.node i).dir = true → (fs'.node i).dir = true
   look : ∀ (d : Nat) (n : Name) (j : Ino), (fs.node d).dir = true → fs.lookup d n = some j → fs'.lookup d n = some j
-  sym : ∀ (d : Nat) (n : Name) (j : Ino), fs.lookup d n = some j →
-    (fs'.node j).isSymlink = (fs.node j).isSymlink ∧ (fs'.node j).target = (fs.node j).target
+  sym : ∀ (d : Nat) (n : Name) (j : Ino), (fs.node d).dir = true → fs.lookup d n = some j →
+    (fs'.node j).isSymlink = (fs.node j).isSymlink ∧ (fs'.node j).target = (fs.node j).target ∧
+      (fs'.node j).dir = (fs.node j).dir
 
 /-- a recursor of the extended graph agrees with the one of the original wherever that succeeds -/
 def RecExt : Option (Text → Nat → Except Err (Ino × Nat)) → Option (Text → Nat → Except Err (Ino × Nat)) → Prop
@@ -37,8 +38,8 @@ theorem walkImpl_ext {fs fs' : FS} (he : Ext fs fs') (r r' : Option (Text → Na
       | none => simp [hl] at h
       | some child =>
         have hl' := he.look node part child hd hl
-        have hs := he.sym node part child hl
-        simp only [hl, hl', hs.1, hs.2] at h ⊢
+        have hs := he.sym node part child hd hl
+        simp only [hl, hl', hs.1, hs.2.1] at h ⊢
         by_cases hsym : (fs.node child).isSymlink = true
         · simp only [hsym, if_true] at h ⊢
           by_cases hc : cnt + 1 > maxLinks
@@ -148,11 +149,11 @@ theorem ext_create {fs : FS} (hi : FS.Inv fs) (d : Nat) (b : Name) (nd : Inode)
       rw [lookup_setChild_ne _ _ _ _ hnb]; exact hl
     · simp only [FS.lookup] at hl ⊢
       rw [node_old e hel hed]; exact hl
-  · intro e n j hl
+  · intro e n j _ hl
     have hjl := lookup_live hi hl
     by_cases hjd : j = d
-    · subst hjd; rw [node_create_parent fs j b nd hd]; exact ⟨rfl, rfl⟩
-    · rw [node_old j hjl hjd]; exact ⟨rfl, rfl⟩
+    · subst hjd; rw [node_create_parent fs j b nd hd]; exact ⟨rfl, rfl, rfl⟩
+    · rw [node_old j hjl hjd]; exact ⟨rfl, rfl, rfl⟩
 
 /-- what the new name resolves to afterwards -/
 theorem lookup_create (fs : FS) (d : Nat) (b : Name) (nd : Inode) (hd : (fs.node d).dir = true) :
